@@ -155,7 +155,7 @@ def main(argv=None):
     # classify violations
     new = [v for v in merged.violations if v['mechanism'] not in known]
     kf_counts = {m: merged.viol_counts.get(m, 0) for m in known}
-    replay_dir = os.path.join(env.VERIF_DIR, 'replays', pid)
+    replay_dir = os.path.join(os.environ.get('VERIF_REPLAY_DIR') or os.path.join(env.VERIF_DIR, 'replays'), pid)
     lines = []
     n_new = sum(c for m, c in merged.viol_counts.items() if m not in known)
     written = {}
@@ -206,8 +206,9 @@ def main(argv=None):
         'wall_s': round(wall, 2),
         'violations': n_new,
     }
-    os.makedirs(os.path.join(env.VERIF_DIR, 'evidence'), exist_ok=True)
-    evpath = os.path.join(env.VERIF_DIR, 'evidence', pid + '.json')
+    evdir = os.environ.get('VERIF_EVIDENCE_DIR') or os.path.join(env.VERIF_DIR, 'evidence')
+    os.makedirs(evdir, exist_ok=True)
+    evpath = os.path.join(evdir, pid + '.json')
     with open(evpath + '.tmp', 'w') as f:
         json.dump(evidence, f, indent=1, default=str)
     os.replace(evpath + '.tmp', evpath)
